@@ -572,7 +572,7 @@ package url
 
 //@ func (*parser).BasicParser
 //@   requires okOpts(p)
-//@   requires baseUrl != nil ==> wf(baseUrl)
+//@   requires baseUrl != nil ==> (wf(baseUrl) && baseUrl.parser == p)
 //@   requires url == nil ==> stateOverride == NoState
 //@   requires url != nil ==> (wf(url) && url.parser == p && baseUrl == nil && (stateOverride == StateSchemeStart || stateOverride == StateHost
 //@            || stateOverride == StateHostname || stateOverride == StatePort || stateOverride == StatePathStart
@@ -582,7 +582,7 @@ package url
 //@   requires (stateOverride == StatePathStart || stateOverride == StateHost || stateOverride == StateHostname) ==> !url.path.opaque
 //@   requires stateOverride == StatePort ==> (url.host != nil && url.scheme != "file")
 //@   modifies url.*, url.path.*, url.path.p[..], url.validationErrors[..]
-//@   ensures (url == nil && result1 == nil) ==> (result0 != nil && fresh(result0) && wf(result0))   [C02,C04]
+//@   ensures (url == nil && result1 == nil) ==> (result0 != nil && fresh(result0) && wf(result0) && result0.parser == p)   [C02,C04]
 //@   ensures url != nil ==> wf(url)   [C02,C04]
 //@   ensures url != nil ==> (result0 == url || result0 == nil)
 //@   ensures (url == nil && result1 == nil) ==> allFresh(result0)   [C13,C14]
@@ -642,6 +642,8 @@ package url
 //@   loop 1 invariant arr(url.validationErrors) == pre(arr(url.validationErrors)) || freshL(url.validationErrors)
 //@   loop 1 invariant arr(url.path.p) == pre(arr(url.path.p)) || freshL(url.path.p) || (base != nil && arr(url.path.p) == pre(arr(base.path.p)))
 //@   loop 1 invariant state == StatePort ==> specAllDigits(bufv(buffer))
+//@   loop 1 invariant (!stateOverridden && url.port != nil) ==> (state == StatePathStart || state == StatePath || state == StateQuery || state == StateFragment)
+//@   loop 1 invariant (state == StateRelativeSlash && !stateOverridden) ==> url.scheme == base.scheme
 //@   loop 1 invariant wfPort(url)
 //@   loop 1 invariant wfSP(url)
 //@   loop 1 invariant wfDistinct(url)
@@ -827,7 +829,7 @@ package url
 
 //@ func (*parser).Parse
 //@   requires okOpts(p)
-//@   ensures result1 == nil ==> (result0 != nil && fresh(result0) && wf(result0) && allFresh(result0))   [C02,C13,C14]
+//@   ensures result1 == nil ==> (result0 != nil && fresh(result0) && wf(result0) && allFresh(result0) && result0.parser == p)   [C02,C13,C14]
 //@ func (*parser).ParseRef
 //@   requires okOpts(p)
 //@   ensures result1 == nil ==> (result0 != nil && fresh(result0) && wf(result0) && allFresh(result0))   [C02,C13,C14]
